@@ -14,7 +14,9 @@
      * try_pop_n wrapping around the ring calls the consume function twice; the model delivers one batch;
      * the set_version stores releasing a consumed batch are one step (they commute with everything a producer
        waiting for one of the slots does);
-     * wait + payload write + set_version of a push are one step at the set_version.
+     * wait + payload write + set_version of a push are one step at the set_version;
+     * _queue.size() (relaxed loads of _next_pop_index, which only this consumer writes, then of _next_push_index) is
+       one step at the second load; the S::yield() that follows a non-zero size has no effect on the state.
    The queue's own correctness (each ticket's value is delivered to the pop of the same ticket, exclusively) is
    property C01 and is assumed here: `cells` is the list of tickets in ticket order.
 
@@ -49,7 +51,8 @@ Inductive pc :=
 | CPoll (seen : Z)               (* next: try_pop_n scan *)
 | CConsume                       (* inside the consume function; next: leave it and release the slots *)
 | CReload                        (* next: events = _events.load *)
-| CCas (seen : Z).               (* empty poll; next: CAS(_events: seen -> 0) *)
+| CSize (seen : Z)               (* empty poll; next: _queue.size() - the load of _next_push_index *)
+| CCas (seen : Z).               (* empty poll, no ticket outstanding; next: CAS(_events: seen -> 0) *)
 
 Record thread := { prog : list op; opi : nat; tpc : pc; results : list res }.
 
@@ -159,6 +162,10 @@ Definition step_thread (s : st) (t : nat) (th : thread) : option (st * thread * 
     let n := Nat.min (ready_prefix (skipn (npop s) (cells s))) (Z.to_nat (poll_limit (Z.of_nat (cap s)))) in
     if poll_nonempty (Z.of_nat n)
     then Some (with_glob s (faults s) (events s) (cells s) (npop s + n)%nat (ndel s) (stale s), goto th CConsume, [])
+    else Some (s, goto th (CSize seen), [])
+  | CSize seen =>            (* _queue.size() != 0 ? yield and poll again : go on to the exit CAS *)
+    if keep_role_while_tickets_out (queue_size (Z.of_nat (npop s)) (Z.of_nat (length (cells s))))
+    then Some (s, goto th (CPoll seen), [])
     else Some (s, goto th (CCas seen), [])
   | CConsume =>              (* leave the consume function, release the slots *)
     Some (with_glob s (faults s) (events s) (cells s) (npop s) (npop s) (stale s), goto th CReload, [])
